@@ -16,6 +16,9 @@ Oracles (on the implementation alone):
                  [0, C(n,3)) is unranked and rng.choice is not given a larger population; budgets <, =, > C(n,3); n_thetas up
                  to 3000 (C(n,3) > 2^31); a generator whose with-replacement draws are constant (a legitimate outcome);
                  and without any instrumentation: unit distances/variances give log(3 K) - E/2 log 3.
+  * reuse      : ONE GaussianDBALScorer object scores successive rounds with different numbers of posterior samples and
+                 distance matrices; the gathers of every kernel invocation of every round (observed by wrapping the kernel's
+                 three arrays, all other arguments passed through) must satisfy the call-site oracles for THAT round's n.
 Tie of the call site: `unrank.callsite n max_combos <recorded draw>` (Model/UnrankCallsite.lean, the object of
 `C15_callsite`) must reproduce the population and size rng.choice received and the observed triples, in order.
 """
@@ -34,7 +37,8 @@ RULE = ("A: every index of every (n,k), n <= Nexh, k <= min(n,5) (plus k = n for
         "numpy.int64 (what the call site passes); C: malformed arguments (k > n, index >= C(n,k), negative index) for the tie "
         "only; D: the production call site observed through recording input arrays and a recording generator: n_thetas 3..16 with budgets "
         "1, C/2, C-1, C, C+1, 2C, 5000, n_thetas 32/33 around the default budget 5000, n_thetas 60..3000 with budgets 50..5000 (sub-sampling), "
-        "a third of them with a generator whose with-replacement draws are constant; plus uninstrumented unit-weight runs. Non-trivial: k >= 2 and C(n,k) >= 3.")
+        "a third of them with a generator whose with-replacement draws are constant; plus uninstrumented unit-weight runs; plus one scorer object "
+        "reused over 2-4 rounds with different n_thetas (growing and shrinking; budget covering all rounds / some / none), triples observed per kernel invocation. Non-trivial: k >= 2 and C(n,k) >= 3.")
 
 
 def rank(c):
@@ -362,6 +366,151 @@ def callsite_case(res, gd, n_thetas, max_combos, seed, adversarial=False, tie=No
                     "%d|%d|%s" % (int(ch["a"]), int(ch["size"]), ";".join("%d,%d,%d" % t for t in sorted(triples)) or "-"), case))
 
 
+class _StubPlate:
+    def __init__(self, means, variances):
+        self.means, self.variances = means, variances
+        self.size = means.shape[1]
+        self.selection_vector = np.zeros(1, dtype=bool)
+
+
+class _StubTheta:
+    def __init__(self, i):
+        self.i = i
+
+    def predict_conditional_mean(self, screen):
+        return screen.means[self.i]
+
+    def predict_conditional_variance(self, screen):
+        return screen.variances[self.i]
+
+
+class _StubThetas:
+    def __init__(self, n):
+        self.n_thetas = n
+
+    def get_theta(self, i):
+        return _StubTheta(int(i))
+
+
+class _StubDM:
+    def __init__(self, d):
+        self.d = d
+
+    def to_dense(self):
+        return self.d
+
+
+def triples_of_kernel_call(log_d, log_p, log_v):
+    """the triples ONE kernel invocation used, read off the gathers on its input arrays (never off the generator, so it
+    also works when the kernel is handed precomputed triples through some new argument); None if unobservable"""
+    dkeys = [k for k in log_d if len(k) == 2 and len(k[0]) == len(k[1])]
+    if len(dkeys) == 3:
+        (a1, b1), (a2, b2), (a3, b3) = dkeys
+        if not (np.array_equal(a1, a3) and np.array_equal(b1, a2) and np.array_equal(b2, b3)):
+            return "pairs", None
+        cols = (a1, b1, b2)
+        for lg in (log_p, log_v):
+            seen = [k[0] for k in lg if len(k) == 1]
+            if any(not any(np.array_equal(arr, c_) for c_ in cols) for arr in seen):
+                return "inconsistent", None
+        return "distance-matrix", [(int(i), int(j), int(l)) for i, j, l in zip(*cols)]
+    uniq = []
+    for k in log_p + log_v:
+        if len(k) == 1 and not any(np.array_equal(k[0], u) for u in uniq):
+            uniq.append(k[0])
+    if len(uniq) == 3 and len(set(len(u) for u in uniq)) == 1:
+        return "predictions/variances", [tuple(sorted((int(i), int(j), int(l)), reverse=True)) if len({int(i), int(j), int(l)}) == 3
+                                         else (int(i), int(j), int(l)) for i, j, l in zip(*uniq)]
+    return "unobserved", None
+
+
+def scorer_reuse_case(res, gd, ns, max_triples, max_chunk, seed):
+    """ONE GaussianDBALScorer object scores successive rounds with DIFFERENT numbers of posterior samples `ns` (and different
+    distance matrices, plates), as an in-process active-learning loop does.  In every round and every kernel invocation of that
+    round the triples actually gathered must be min(C(n,3), max_triples) pairwise distinct in-range triples of THAT round's n,
+    and all C(n,3) of them when the budget covers them."""
+    case = {"kind": "reuse", "ns": list(ns), "max_triples": max_triples, "max_chunk": max_chunk, "seed": seed}
+    g = np.random.default_rng(seed)
+    scorer = gd.GaussianDBALScorer(max_chunk=max_chunk, max_triples=max_triples)
+    rng = RecGen(seed, adversarial=True)
+    kernel = gd.dbal_fast_gauss_scoring_vectorized
+    per_call = []
+
+    def wrapped(*a, **k):
+        # wrap the three arrays in recorders and pass EVERYTHING else through untouched (also arguments this harness does not know)
+        logs = ([], [], [])
+        names = ("predictions", "variances", "distance_matrix")
+        a = list(a)
+        for pos, (name, lg) in enumerate(zip(names, logs)):
+            if name in k:
+                k[name] = RecordingArray(np.asarray(k[name]), lg)
+            elif pos < len(a):
+                a[pos] = RecordingArray(np.asarray(a[pos]), lg)
+        out = kernel(*a, **k)
+        per_call.append(logs)
+        return out
+
+    gd.dbal_fast_gauss_scoring_vectorized = wrapped
+    try:
+        for rnd, n in enumerate(ns):
+            del per_call[:]
+            sizes = [int(x) for x in g.integers(1, 4, size=int(g.integers(1, 5)))]
+            plates = {10 * rnd + i: _StubPlate(g.normal(size=(n, L)), g.uniform(0.5, 2.0, size=(n, L))) for i, L in enumerate(sizes)}
+            d = g.uniform(0.1, 1.0, size=(n, n))
+            d = (d + d.T) / 2
+            np.fill_diagonal(d, 0.0)
+            where = dict(case, round=rnd, n_thetas=n)
+            try:
+                out = scorer.score(plates=plates, distance_matrix=_StubDM(d), samples=_StubThetas(n), rng=rng, progress_bar=False)
+            except Exception as e:  # noqa
+                res.fail("a scorer object used before with %s posterior samples raises when scoring with %d" % (list(ns[:rnd]), n), case,
+                         {"round": rnd, "error": "%s: %s" % (type(e).__name__, str(e)[:200])}, "scores", signature="C15:reuse-raises")
+                return
+            res.evaluations += 1
+            total = math.comb(n, 3)
+            want_n = min(total, max_triples)
+            if len(per_call) != int(math.ceil(len(plates) / max_chunk)):
+                res.notes.append("reuse: %d kernel invocations observed for %d plates, max_chunk %d" % (len(per_call), len(plates), max_chunk))
+            for inv, (lp, lv, ld) in enumerate(per_call):
+                how, triples = triples_of_kernel_call(ld, lp, lv)
+                if triples is None:
+                    if how in ("pairs", "inconsistent"):
+                        res.fail("the kernel's arrays are not gathered at one consistent set of triples", case, {"round": rnd, "why": how},
+                                 "(i,j),(j,l),(i,l) and idx1/idx2/idx3", signature="C15:reuse-consistency")
+                        return
+                    res.count("reuse.unobserved")
+                    continue
+                obs = {"round": rnd, "n_thetas": n, "kernel_call": inv, "n_triples": len(triples), "distinct": len(set(triples)),
+                       "first": [list(t) for t in triples[:5]], "observed_via": how, "previous_n_thetas": list(ns[:rnd])}
+                bad_t = next((t for t in triples if check_valid(t, n, 3)), None)
+                if bad_t is not None:
+                    res.fail("triple used for scoring is not i>j>l within range (scorer object reused with another number of posterior samples)",
+                             case, dict(obs, bad=list(bad_t)), "n_thetas > i > j > l >= 0", signature="C15:reuse-range")
+                    return
+                if len(set(triples)) != len(triples):
+                    res.fail("triples used for scoring are not pairwise distinct (scorer object reused)", case, obs, "pairwise distinct",
+                             signature="C15:reuse-distinct")
+                    return
+                if len(triples) != want_n:
+                    res.fail("number of triples used differs from min(C(n,3), max_triples) (scorer object reused with another number of posterior samples)",
+                             case, obs, {"n_triples": want_n}, signature="C15:reuse-count")
+                    return
+                if total <= max_triples and len(set(triples)) != total:
+                    res.fail("budget covers all triples but not all triples are used (scorer object reused)", case, obs, "all C(n,3) triples",
+                             signature="C15:reuse-all")
+                    return
+            if len(out) != len(plates):
+                res.fail("scorer does not score every plate", case, {"round": rnd}, "one score per plate", signature="C15:reuse-raises")
+                return
+            if rnd >= 1:
+                res.count("reuse.round_after_%s_n.%s" % ("smaller" if ns[rnd - 1] < n else "larger" if ns[rnd - 1] > n else "equal",
+                                                        "exhaustive" if total <= max_triples else "subsampled"))
+                res.nontrivial.add(("reuse", tuple(ns[:rnd + 1]), max_triples))
+                res.traces_validated += 1
+    finally:
+        gd.dbal_fast_gauss_scoring_vectorized = kernel
+
+
 def blackbox_case(res, gd, n_thetas, max_combos, seed):
     """no instrumentation at all: with all distances 1, all means 0, all variances 1 and E experiments every triple of
     three DIFFERENT samples weighs 3 * 3^(-E/2), a 'triple' with a repeated sample weighs 2 * ... or 0: the score must be
@@ -487,6 +636,19 @@ def run(ctx, res):
             break
     for (n, mc) in [(3, 1), (3, 5000), (4, 4), (5, 7), (10, 120), (10, 5000), (12, 100), (33, 5000), (40, 5000), (200, 5000), (1500, 2000)]:
         blackbox_case(res, gd, n, mc, crng.randrange(2 ** 31))
+    # one scorer object over rounds with changing numbers of posterior samples (exhaustive budget for all rounds, for some, for none)
+    reuse = [((4, 7, 5), 5000, 50), ((7, 4), 5000, 2), ((5, 9, 3, 9), 84, 1), ((9, 5), 84, 50), ((6, 8), 20, 2), ((8, 6), 20, 1),
+             ((12, 30, 10), 100, 3), ((30, 12), 100, 50), ((3, 4), 5000, 50), ((4, 3), 1, 1), ((40, 60, 25), 5000, 50), ((300, 200, 400), 500, 2)]
+    for _ in range(ctx.scale(10, 100)):
+        k = crng.randint(2, 4)
+        ns = tuple(crng.randint(3, 14) for _ in range(k))
+        cmax = max(math.comb(x, 3) for x in ns)
+        cmin = min(math.comb(x, 3) for x in ns)
+        reuse.append((ns, crng.choice([5000, cmax, cmax + 1, cmin, max(1, cmin - 1), crng.randint(1, cmax)]), crng.choice([1, 2, 3, 50])))
+    for (ns, mt, mc) in reuse:
+        scorer_reuse_case(res, gd, ns, mt, mc, crng.randrange(2 ** 31))
+        if len(res.oracle_failures) >= 20:
+            break
     # fewer than three posterior samples: tie only
     for (n, mc) in [(2, 10), (0, 5), (1, 1)]:
         try:
@@ -534,6 +696,8 @@ def replay(ctx, case, res):
         exhaustive(res, fn, case["n"], case["k"], [], [], [])
     elif kind == "callsite":
         callsite_case(res, gd, case["n_thetas"], case["max_combos"], case["seed"], adversarial=case.get("adversarial", False))
+    elif kind == "reuse":
+        scorer_reuse_case(res, gd, case["ns"], case["max_triples"], case["max_chunk"], case["seed"])
     elif kind == "blackbox":
         blackbox_case(res, gd, case["n_thetas"], case["max_combos"], case["seed"])
     else:
